@@ -1481,6 +1481,9 @@ type solveCfg struct {
 	workers  int
 	agree    bool // thorough: every available solver must agree
 	stats    *solverStats
+	// obligations listed as open known findings: expected not to discharge, so they get a short limit and no
+	// second attempt (a proof, should the defect be gone, still counts)
+	expectFail map[string]bool
 }
 
 // sizeBounds asks for a small counterexample (replayable allocation sizes).
@@ -1615,6 +1618,12 @@ func solveAll(exs map[string]*Exec, results []*FuncResult, cfg *solveCfg) {
 		go func() {
 			defer wg.Done()
 			for j := range jobs {
+				if cfg.expectFail[j.o.Name] && cfg.timeout > 8*time.Second {
+					c2 := *cfg
+					c2.timeout = 8 * time.Second
+					solveOne(j.ex, j.o, &c2)
+					continue
+				}
 				solveOne(j.ex, j.o, cfg)
 			}
 		}()
@@ -1632,7 +1641,7 @@ func solveAll(exs map[string]*Exec, results []*FuncResult, cfg *solveCfg) {
 	var again []job
 	for _, r := range results {
 		for _, o := range r.Obls {
-			if !o.Static && !o.Cover && (o.Status == "timeout" || o.Status == "unknown") {
+			if !o.Static && !o.Cover && (o.Status == "timeout" || o.Status == "unknown") && !cfg.expectFail[o.Name] {
 				again = append(again, job{exs[r.Key], o})
 			}
 		}
